@@ -17,7 +17,7 @@ from .verify import repo
 
 FeatMeta = z3.DeclareSort("FeatMeta")
 ftype = z3.Function("feature_type", FeatMeta, Key)
-RP_KEYS = ["pos", "area", "ellipse_axis_radii", "circularity", "perimeter"]
+RP_KEYS = ["pos", "generic"]  # position + one generic regionprops feature (the code treats table entries uniformly)
 
 
 def _featmeta_getitem(I, sym, name):
@@ -72,7 +72,8 @@ def make_tracks(I, has_seg=False, solution=True, lineage=True, rp_active=None, h
     lk = ctx.fresh("lineage_key", Key)
     pk = ctx.fresh("pos_key", Key)
     W.time_key, W.tracklet_key, W.lineage_key, W.pos_key = tk, trk, lk, pk
-    rp_keys = {n: (pk if n == "pos" else lit(n)) for n in RP_KEYS}
+    gk = ctx.fresh("rp_key", Key)
+    rp_keys = {"pos": pk, "generic": gk}
     W.rp_keys = rp_keys
     iou_key = lit("iou")
     W.iou_key = iou_key
@@ -105,7 +106,7 @@ def make_tracks(I, has_seg=False, solution=True, lineage=True, rp_active=None, h
             "pos_key": Sym(pk), "area_key": "area", "ellipse_axis_radii_key": "ellipse_axis_radii",
             "circularity_key": "circularity", "perimeter_key": "perimeter",
             "all_features": AssocDict(items),
-            "regionprops_names": AssocDict([(Sym(rp_keys[n]), rn) for n, rn in zip(RP_KEYS, ["centroid", "area", "axes", "circularity", "perimeter"])]),
+            "regionprops_names": AssocDict([(Sym(pk), "centroid"), (Sym(gk), Sym(ctx.fresh("rp_attr_name", Key)))]),
         })
         annots.append(rp)
         W.rp = rp
@@ -180,6 +181,9 @@ class ScaleModel(ModelObj):
         if other is None:
             return self.is_none
         raise Unsupported("scale == x")
+
+    def m_is_none(self, I):
+        return self.is_none
 
 
 class CacheModel(ModelObj):
